@@ -95,6 +95,7 @@ fn panic_props(focus: &str) -> Vec<&'static str> {
     // a panic in a fault-free sequential history contradicts the property being exercised
     match focus {
         "C02" => vec!["C02"],
+        "C06" => vec!["C06"],
         "C07" => vec!["C07"],
         "C12" => vec!["C12"],
         "C13" => vec!["C13"],
@@ -178,6 +179,14 @@ fn gen_cfg(focus: &str, rng: &mut Rng, thorough: bool) -> GenCfg {
             g.n_keys = 3;
             g.n_contents = 6;
         }
+        "C06" => {
+            // blob-file integrity under every write shape: few keys, many contents, and the
+            // large contents (header + big body, big body + trailer) in every history
+            g.n_keys = 3;
+            g.n_contents = 6;
+            g.allow_big = true;
+            return g;
+        }
         _ => {
             g.n_keys = rng.range(2, 8) as usize;
             g.n_contents = rng.range(2, 6) as usize;
@@ -211,7 +220,7 @@ impl Features {
             "C12" => self.shared || self.reput_same || self.range_multi,
             "C13" => self.abort_nonempty,
             "C17" => self.overwrite || self.remove_present || self.multi_chunk,
-            "C18" => self.multi_chunk,
+            "C06" | "C18" => self.multi_chunk,
             "C20" => self.rollover,
             _ => true,
         }
@@ -544,6 +553,7 @@ fn run_model<K: TestKey>(p: &Params, case: u64, rep: &mut Report) {
 fn focus_static(focus: &str) -> &'static str {
     match focus {
         "C02" => "C02",
+        "C06" => "C06",
         "C07" => "C07",
         "C12" => "C12",
         "C13" => "C13",
